@@ -97,9 +97,10 @@ class Program:
     becomes an ordinary dataclass field in such modules.
     """
 
-    def __init__(self, src_root: str = SRC, package: str = "lerax", sources: dict[str, str] | None = None):
+    def __init__(self, src_root: str = SRC, package: str = "lerax", sources: dict[str, str] | None = None, file_filter=None):
         self.src_root = src_root
         self.package = package
+        self.file_filter = file_filter
         self.modules: dict[str, ModuleInfo] = {}
         self.classes: dict[str, ClassInfo] = {}  # qualname -> ClassInfo
         self.by_name: dict[str, list[ClassInfo]] = {}
@@ -119,6 +120,8 @@ class Program:
                 if not fn.endswith(".py"):
                     continue
                 path = os.path.join(dp, fn)
+                if self.file_filter is not None and not self.file_filter(os.path.relpath(path, self.src_root)):
+                    continue
                 rel = os.path.relpath(path, self.src_root)[:-3].split(os.sep)
                 is_pkg = rel[-1] == "__init__"
                 if is_pkg:
